@@ -31,6 +31,7 @@ def run(chk):
     a64common.rule_sibling_checks(chk, A)
     from lib import a64vec
     a64vec.run(chk, A)
+    a64vec.run_signature_rows(chk, A)
     from lib import relocrules
     relocrules.bound_unbound(chk, [emit])
     from lib import opkind
